@@ -438,10 +438,12 @@ func C19(p *core.Program, r *core.Report) {
 	}
 	// ---- H7: the id of a placeholder is the last non-empty path segment of the tested URL
 	// (not "embed"/"video"), or the tweet id attribute of a rendered tweet. Decision paths of each
-	// extractor's Extract with its helpers expanded; the stored ID is rendered per path.
-	reSeg := regexp.MustCompile(`^strings\.TrimSpace\(elem\(strings\.Split\(url\.ParseRequestURI\(.*\)#0\.Path,"/"\)\)\)$`)
+	// extractor's Extract with its helpers expanded; the stored ID is rendered per path. The path is
+	// that of the URL parsed as a URL reference (url.Parse): url.ParseRequestURI, documented to assume
+	// no fragment, leaves "#t=30" in the last segment and makes segments of a fragment.
+	reSeg := regexp.MustCompile(`^strings\.TrimSpace\(elem\(strings\.Split\(url\.Parse\(.*\)#0\.Path,"/"\)\)\)$`)
 	// the scan starts at the last segment: the loop test is on an index that starts at len-1 and counts down
-	reLast := regexp.MustCompile(`^loop\d+\((μ\(\(@0 - 1\)\|)?\(len\(strings\.Split\(url\.ParseRequestURI\(.*\)#0\.Path,"/"\)\) - 1\)\)? <= -1\)$`)
+	reLast := regexp.MustCompile(`^loop\d+\((μ\(\(@0 - 1\)\|)?\(len\(strings\.Split\(url\.Parse\(.*\)#0\.Path,"/"\)\) - 1\)\)? <= -1\)$`)
 	for _, ex := range []struct{ typ, skip string }{{"YouTubeExtractor", "embed"}, {"VimeoExtractor", "video"}, {"TwitterExtractor", ""}} {
 		fn := mustInl(p, r, "H7", "(*mod/internal/extractor/embed."+ex.typ+").Extract")
 		if fn == nil {
@@ -502,7 +504,7 @@ func C19(p *core.Program, r *core.Report) {
 				}
 			}
 		}
-		r.Add("H7", ex.typ+": the id is the last non-empty path segment of the URL", p.Pos(fn.Pos()), n > 0 && bad == 0,
+		r.Add("H7", ex.typ+": the id is the last non-empty path segment of the URL (parsed fragment-aware, with url.Parse)", p.Pos(fn.Pos()), n > 0 && bad == 0,
 			fmt.Sprintf("%d decision paths store an ID, %d of them with a value of another shape or without the non-empty/keyword tests", n, bad), wit...)
 	}
 }
